@@ -1068,6 +1068,11 @@ func (e *Env) heapByName(name string) Term {
 		}
 		return fv.heap(e.st, name, SInt)
 	}
+	if strings.HasPrefix(name, "*") {
+		if t, _ := fv.resolveType(name[1:]); t != nil {
+			return fv.heap(e.st, fv.scalarHeapName(t), fv.TE.SortOf(t))
+		}
+	}
 	if i := strings.LastIndex(name, "."); i > 0 {
 		t, _ := fv.resolveType(name[:i])
 		if si := fv.TE.StructInfo(t); si != nil {
@@ -1370,6 +1375,11 @@ func (fv *FuncVC) heapKeyOf(name string) string {
 	if strings.HasPrefix(name, "elem:") {
 		t, _ := fv.resolveType(name[5:])
 		return fv.scalarHeapName(t)
+	}
+	if strings.HasPrefix(name, "*") {
+		if t, _ := fv.resolveType(name[1:]); t != nil {
+			return fv.scalarHeapName(t)
+		}
 	}
 	if i := strings.LastIndex(name, "."); i > 0 {
 		t, _ := fv.resolveType(name[:i])
